@@ -274,7 +274,13 @@ def preempt_get(k):
     hit = reached.wait(0.5)
     put_done = threading.Event()
     if hit:
-        left_queue = len(q.queue) == 0     # has x1 already left the deque at the preemption point? (no lock: the consumer may hold it)
+        # what a third thread can OBSERVE at the preemption point, the way qsize() does: under the queue's mutex.  If the
+        # mutex is free and the deque empty, x1 is observably out before put(x2) is even called: get()'s linearisation point
+        # lies before the put, which therefore must be accepted.  (Parked inside the mutex nothing is observable: no demand.)
+        seen_empty = False
+        if q.mutex.acquire(False):
+            seen_empty = len(q.queue) == 0
+            q.mutex.release()
 
         def prod():
             q.put(x2)
@@ -299,12 +305,80 @@ def preempt_get(k):
         # returned): ordering the put first - equal to a waiting item, dropped - is a legal linearisation.  The unchanged
         # code itself drops the second item when the consumer is preempted between popleft and the reset inside _get.
         out.append(f"items obtained {got}")
+    elif hit and seen_empty and len(got) != 2:
+        out.append(f"consumer preempted at bytecode #{k} of the queue's own code during get(): a third thread sees the queue empty (qsize() == 0, the item has been taken out) and only then put(equal item) is called - it was dropped: items obtained {got} (once an item has been taken out an equal item is accepted again)")
     return out, hit
+
+
+def observer_histories():
+    """the queue as the observer uses it: schedule / queue_event / unschedule / re-schedule on an unstarted observer, then
+    everything is dispatched.  Whatever the registry calls do, the queue's own law holds for the entries the emitters offered:
+    of a run of equal consecutive entries offered while none was taken out exactly ONE comes out, every other entry comes out,
+    in order (an entry of an unscheduled watch comes out too - it just finds no handler)"""
+    from watchdog.observers.api import BaseObserver, EventEmitter
+    from watchdog.events import FileSystemEventHandler, FileCreatedEvent, FileDeletedEvent
+    problems = []
+
+    class Em(EventEmitter):
+        def queue_events(self, timeout):
+            self.stopped_event.wait(0.05)
+
+    class H(FileSystemEventHandler):
+        def __init__(self):
+            self.got = []
+
+        def dispatch(self, event):
+            self.got.append(event)
+    E1, E2 = FileCreatedEvent("/p/x"), FileDeletedEvent("/p/x")
+    programs = {
+        "offer, unschedule, schedule the same path again, offer the equal entry": ["s", "q1", "u", "s", "q1"],
+        "offer, unschedule, schedule again, offer equal, offer different, offer equal": ["s", "q1", "u", "s", "q1", "q2", "q1"],
+        "offer two different, unschedule, schedule again, offer the last again": ["s", "q1", "q2", "u", "s", "q2"],
+        "offer, unschedule_all, schedule again, offer equal twice": ["s", "q1", "U", "s", "q1", "q1"],
+    }
+    for name, prog in programs.items():
+        obs = BaseObserver(Em, timeout=0.05)
+        offered, w, em = [], None, None
+        try:
+            for op in prog:
+                if op == "s":
+                    h = H()
+                    w = obs.schedule(h, "/p")
+                    em = next(e for e in obs.emitters if e.watch == w)
+                elif op == "u":
+                    obs.unschedule(w)
+                elif op == "U":
+                    obs.unschedule_all()
+                else:
+                    ev = E1 if op == "q1" else E2
+                    em.queue_event(ev)
+                    offered.append(ev)
+            # reference: nothing was taken out meanwhile, so exactly the consecutive repeats are dropped
+            want = [e for i, e in enumerate(offered) if i == 0 or e != offered[i - 1]]
+            out = []
+            while True:
+                try:
+                    out.append(obs.event_queue.get_nowait()[0])
+                except queue.Empty:
+                    break
+            if out != want:
+                problems.append(f"{name}: the emitters offered {[type(e).__name__ for e in offered]}, the queue handed out {[type(e).__name__ for e in out]}, the queue's law gives {[type(e).__name__ for e in want]} (an entry that was not a consecutive duplicate is lost)")
+        except Exception as e:  # noqa: BLE001
+            problems.append(f"{name}: {type(e).__name__}: {e}")
+        finally:
+            try:
+                obs.unschedule_all()
+            except Exception:  # noqa: BLE001
+                pass
+    return problems
 
 
 def main():
     if REPLAY is not None:
         c = REPLAY
+        if c["kind"] == "observer-histories":
+            pr = observer_histories()
+            replay_result(bool(pr), pr[:3])
         if c["kind"] == "preempt-get":
             pr, _hit = preempt_get(c["k"])
             replay_result(bool(pr), pr[:3])
@@ -353,6 +427,10 @@ def main():
         bat.case(("preempt-get", k))
         if pr:
             bat.fail("C16.preempted-get", pr[0], {"kind": "preempt-get", "k": k, "problems": pr[:3]}, "SkipRepeatsQueue.get")
+    bat.case("observer-histories")
+    pr = observer_histories()
+    if pr:
+        bat.fail("C16.observer-histories", pr[0], {"kind": "observer-histories", "problems": pr[:3]}, "EventQueue")
     for v in ("consumer", "producer"):
         bat.case(("scenario", v))
         pr = scen_late_bookkeeping(v)
